@@ -29,7 +29,11 @@ func totality(p vlib.Project, res vlib.Result) *vlib.Failure {
 				}
 			}
 			if !inInput {
-				return vlib.Failf("swallowed: "+swallowedKey(res.Err.Msg), "a Go runtime fault is reported as a diagnostic: %q", res.Err.Full)
+				key := "swallowed: " + swallowedKey(res.Err.Msg)
+				if o := vlib.LastFaultOrigin(); o != "" && o != "?" {
+					key += " @ " + o
+				}
+				return vlib.Failf(key, "a Go runtime fault is reported as a diagnostic: %q", res.Err.Full)
 			}
 		}
 		return nil
@@ -112,6 +116,7 @@ func TestC01(t *testing.T) {
 		"byte strings (token sequences enumerated after canonical prefixes, rapid token soups, mutated fixtures, hostile constants, size stress), multi-file include graphs, macro/paste graphs, option sets, generated documents with faults; a case is non-trivial when the run got past scanning (accepted, or rejected by a stage after the scanner) or exercised an include / macro graph / option set; distinct by input hash",
 		"hang limit 30 s per case (typical cost < 5 ms)", "stack limit lowered to 256 MB so runaway recursion dies quickly", "process-fatal outcomes are recovered from the per-shard journal by the driver")
 	defer vlib.CleanupScratch()
+	vlib.EnableFaultLog()
 	h.Require("accepted", "rejected", "include-depth>=1", "macro-cycle")
 
 	vlib.Enum(h, "hostile-constants", false, func(yield func(string) bool) {
